@@ -4,6 +4,8 @@ import AdaVerif.Lemmas.AggSetters
 import AdaVerif.Lemmas.UrlSetters
 import AdaVerif.Lemmas.AggSetPathname
 import AdaVerif.Lemmas.Protocol
+import AdaVerif.Lemmas.HostSetter
+import AdaVerif.Props.C10
 /-
 C03 — Setters implement the Standard's API setters and fail atomically.
 
@@ -278,6 +280,35 @@ theorem url_set_protocol_full (L ty : Nat) (u : Url) (v : Bytes) (hinv : RecInv 
         else (recOf u, false) :=
   setProtocolR_eq L ty u v (AdaVerif.Lemmas.AggL.credOk_of_recInv u hinv) hty
 
+/-! ### the host setters of `ada::url`
+
+`Model/HostSetter.lean` transcribes `url::set_host_or_hostname<override_hostname>` with
+`helpers::get_host_delimiter_location` (the walk to the next of ':', '/', '?', '[' - '\\' for special schemes - with its
+jump from '[' to the next ']'), the file-host branch with its `localhost` rule, `parse_host` (proved in C10) and the port
+part.  `partial`: the theorem needs `bracketClean` - no '/', '?' or '\\' between a '[' and the next ']' - because there
+the C++ (which jumps over them) and the Standard (which stops) cut the host differently; both then reject the value, but
+for different reasons, and that is left to the correspondence run.  IDNA is a parameter (`IdnaAt`, see C10). -/
+
+open AdaVerif.Model.UrlRec AdaVerif.Lemmas.UR AdaVerif.Lemmas.HS in
+/-- **`url::set_host` (hn = false) and `url::set_hostname` (hn = true), end to end** -/
+theorem url_set_host_end_to_end_partial (hn : Bool) (idna : Idna) (L ty : Nat) (u : Url) (v : Bytes) (hty : PP.TyOf u.scheme ty)
+    (hid : ∀ d, AdaVerif.Lemmas.HP.IdnaAt idna d)
+    (hclean : u.scheme ≠ bFile → bracketClean u.isSpecial false (stripTN (v.takeWhile (· != 0x23))) = true) :
+    (setHostR hn idna L ty ((defaultPort u.scheme).getD 0) (recOf u) v).1 =
+      if getHrefSize (recOf (setHostGeneric hn idna u v)) ≤ L then recOf (setHostGeneric hn idna u v) else recOf u :=
+  setHostR_eq hn idna L ty u v hty hid hclean
+
+/-- the delimiter walk of `get_host_delimiter_location` is the Standard's "cut at '/', '?' ('\\'), then the first ':'
+    outside brackets", whenever no hard delimiter stands inside brackets -/
+theorem host_delimiter_location_is_host_state (special : Bool) (view : Bytes)
+    (hc : AdaVerif.Lemmas.HS.bracketClean special false view = true) :
+    AdaVerif.Model.UrlRec.getHostDelimiterLocation special view =
+      (if hostEnd (view.takeWhile (fun b => !AdaVerif.Model.UrlRec.isHardDelim special b)) <
+            (view.takeWhile (fun b => !AdaVerif.Model.UrlRec.isHardDelim special b)).length
+       then (hostEnd (view.takeWhile (fun b => !AdaVerif.Model.UrlRec.isHardDelim special b)), true)
+       else ((view.takeWhile (fun b => !AdaVerif.Model.UrlRec.isHardDelim special b)).length, false)) :=
+  AdaVerif.Lemmas.HS.split_agree special view hc
+
 /-! ### non-vacuity -/
 def noIdna : Idna := ⟨fun _ => none⟩
 example : (setPort { scheme := bHttps, host := some (.domain (ofStr "h")), path := [[]] } (ofStr "8080")).port = some 8080 := by
@@ -290,6 +321,11 @@ example : (AdaVerif.Model.Agg.setPathnameM 100 1 false (AdaVerif.Model.Agg.layou
     (ofStr "//x")).1.buf = ofStr "foo:/.//x" := by decide +kernel
 example : (AdaVerif.Model.UrlRec.setProtocolR 100 2 (AdaVerif.Lemmas.UR.recOf { scheme := bHttps, host := some (.domain (ofStr "h")), port := some 80, path := [[]] })
     (ofStr "H\tTTP:x")) = (AdaVerif.Lemmas.UR.recOf { scheme := bHttp, host := some (.domain (ofStr "h")), path := [[]] }, true) := by decide +kernel
+example : AdaVerif.Lemmas.HS.bracketClean true false (ofStr "[::1]:8080/x") = true := by decide +kernel
+example : (AdaVerif.Model.UrlRec.setHostR false AdaVerif.Props.C10.asciiIdna 100 2 443
+    (AdaVerif.Lemmas.UR.recOf { scheme := bHttps, host := some (.domain (ofStr "h")), path := [[]] }) (ofStr "EXAMPLE.com:8080/x")).1 =
+    AdaVerif.Lemmas.UR.recOf { scheme := bHttps, host := some (.domain (ofStr "example.com")), port := some 8080, path := [[]] } := by
+  decide +kernel
 example : (guarded List.length 3 (fun (s : List Nat) => some (0 :: s)) [1, 2, 3]) = ([1, 2, 3], false) := by decide
 
 end AdaVerif.Props.C03
